@@ -375,6 +375,20 @@ def cmet_line(forced: str, src: str) -> str:
     return " ".join(["cmet", forced, str(len(src)), hexs(src), hexs(src.lower().strip())])
 
 
+def cmetn_line(how: str, drop, forced: str, src: str) -> str:
+    """concrete text on an engine whose SAFE_FUNCTIONS lost the names `drop` (how: sub | inst | cls | edit | agent)"""
+    return " ".join(["cmetn", how, ",".join(hexs(d) for d in drop) or "-", forced, str(len(src)), hexs(src),
+                     hexs(src.lower().strip())])
+
+
+def retable_line(how: str, facts, names, drop_ops=()) -> str:
+    """the four public tables of the live engine replaced (how: inst | cls | edit); `drop_ops`: wire names of operator
+    classes (add, pow, usub, lt, and, ...) missing from the new tables"""
+    f = tables_line(facts, names).split(" ")[1:]
+    keep = lambda field: ",".join(x for x in field.split(",") if x.split("=")[0] not in drop_ops and x != "-") or "-"
+    return " ".join(["retable", how, keep(f[0]), keep(f[1]), keep(f[2]), keep(f[3]), f[4]])
+
+
 def tables_line(facts, names) -> str:
     from .extract.e1 import BIN as EB, UN as EU, CMP as EC, BOOL as EBO
     wire_k = lambda k: {"isin": "in"}.get(k, k)
@@ -404,10 +418,18 @@ APPROVED_WALKER_C = {"isinstance", "callable", "get", "zip", "append", "type", "
                      "__contains__", "copy_location", "iter_fields", "setattr", "pop", "extend", "insert"}
 
 
+TABLE_ATTRS = ("SAFE_OPERATORS", "SAFE_COMPARISONS", "SAFE_BOOL_OPS", "SAFE_FUNCTIONS")
+
+
 class _State:
-    def __init__(self, M):
+    def __init__(self, M, lines=(), work=False):
         self.M = M
         self.m = None
+        # a case that re-assigns / edits the public allow-list tables runs on an instance of a fresh subclass that owns
+        # its tables (the ordinary route of customisation), so that class-level changes stay inside the case
+        self.sub = any(l.startswith("retable ") for l in lines)
+        self.work = work
+        self.cls = M.Mitochondria
         self.world = World(0)
         self.tools = []          # (name, caps)
         self.names = []
@@ -437,6 +459,31 @@ class _State:
             return Tr(r, w)
         return fn
 
+    def _tables_from(self, f):
+        import operator as _op
+        M = self.M
+        inv = lambda d: {v: k for k, v in d.items()}
+        ib, iu, ic, ibo = inv(BIN), inv(UN), inv(CMP), inv(BOOL)
+        sp = lambda x: [] if x in ("-", "") else x.split(",")
+        ops = {}
+        for kv in sp(f[0]):
+            k, p = kv.split("=")
+            ops[getattr(ast, ib[k])] = getattr(_op, p)
+        for kv in sp(f[1]):
+            k, p = kv.split("=")
+            ops[getattr(ast, iu[k])] = getattr(_op, p)
+        cmps = {}
+        for kv in sp(f[2]):
+            k, p = kv.split("=")
+            cmps[getattr(ast, ic[k])] = getattr(_op, p)
+        base_bool = dict(M.Mitochondria.SAFE_BOOL_OPS)
+        bools = {}
+        for k in sp(f[3]):
+            c = getattr(ast, ibo[k])
+            bools[c] = base_bool.get(c, (all if k == "and" else any))
+        names = [unhexs(x) for x in sp(f[4])]
+        return {"SAFE_OPERATORS": ops, "SAFE_COMPARISONS": cmps, "SAFE_BOOL_OPS": bools, "SAFE_FUNCTIONS": names}
+
     def step(self, line: str, prof):
         M = self.M
         t = line.split(" ")
@@ -449,9 +496,43 @@ class _State:
             self.allowed = None if t[9] == "none" else ([] if t[9] == "-" else t[9].split(","))
             self.world = World(seed)
             self.tools = []
-            self.m = M.Mitochondria(timeout_seconds=0 if tz else 5.0, max_ros=rn / rd, silent=silent,
-                                    allowed_capabilities=None if self.allowed is None else self._caps(self.allowed))
-            self.m.SAFE_FUNCTIONS = RecDict(self.world, self.names)
+            if self.sub:
+                own = {a: dict(getattr(M.Mitochondria, a)) for a in TABLE_ATTRS[:3]}
+                own["SAFE_FUNCTIONS"] = RecDict(self.world, self.names)      # overridden BEFORE construction
+                self.cls = type("Mitochondria", (M.Mitochondria,), own)
+            else:
+                self.cls = M.Mitochondria
+            self.m = self.cls(timeout_seconds=0 if tz else 5.0, max_ros=rn / rd, silent=silent,
+                              allowed_capabilities=None if self.allowed is None else self._caps(self.allowed))
+            if not self.sub:
+                self.m.SAFE_FUNCTIONS = RecDict(self.world, self.names)
+            return "ok", None
+        if op == "retable":
+            # the public tables of the LIVE engine: re-assigned on the instance / on its class, or edited in place
+            how = t[1]
+            new = self._tables_from(t[2:7])
+            self.names = list(new["SAFE_FUNCTIONS"])
+            m = self.m
+            for attr in TABLE_ATTRS:
+                val = new[attr]
+                if attr == "SAFE_FUNCTIONS" and how != "edit":
+                    val = RecDict(self.world, val)
+                if how == "inst":
+                    setattr(m, attr, val)
+                elif how == "cls":
+                    m.__dict__.pop(attr, None)
+                    setattr(type(m), attr, val)
+                else:
+                    d = getattr(m, attr)
+                    for k in list(d):
+                        if k not in val:
+                            del d[k]
+                    for k in val:
+                        if attr == "SAFE_FUNCTIONS":
+                            if k not in d:
+                                dict.__setitem__(d, k, Tr(name_handle(k), self.world))
+                        else:
+                            d[k] = val[k]
             return "ok", None
         if op == "tool":
             name = unhexs(t[1])
@@ -485,7 +566,8 @@ class _State:
                 head = "raised"
             ros = int(round(self.m._ros_accumulated * 10))
             ex["prof"] = prof.report()
-            return f"{head} ros={ros} {{{'|'.join(self.world.log)}}}", ex
+            w = f" v={prof.visits()}" if self.work else ""
+            return f"{head} ros={ros} {{{'|'.join(self.world.log)}}}{w}", ex
         if op == "cdg":
             src = unhexs(t[2])
             ex = {}
@@ -546,7 +628,8 @@ class _State:
             ros = int(round(self.m._ros_accumulated * 10))
             ex["prof"] = prof.report()
             ex["tools_run"] = [list(x) for x in self.tools_run]
-            return f"{head} ros={ros} {{{'|'.join(self.world.log)}}}", ex
+            w = f" v={prof.visits()}" if self.work else ""
+            return f"{head} ros={ros} {{{'|'.join(self.world.log)}}}{w}", ex
         if op == "pyev":
             src = unhexs(t[1])
             w = World(self.world.seed)
@@ -569,10 +652,40 @@ class _State:
             except BaseException:  # noqa
                 head = "fail"
             return f"{head} {{{'|'.join(w.log)}}}", None
-        if op == "cmet":
-            forced, src = t[1], unhexs(t[3])
+        if op in ("cmet", "cmetn"):
+            if op == "cmet":
+                forced, src = t[1], unhexs(t[3])
+                m2 = M.Mitochondria(silent=True)
+                table = dict(M.Mitochondria.SAFE_FUNCTIONS)
+                agent = None
+            else:
+                # the allow-list of a LIVE engine narrowed through its public attribute (instance / class / in place /
+                # the engine a BioAgent built for itself); `sub` = narrowed before construction (control)
+                how, drop, forced, src = t[1], set(unhexs(h) for h in t[2].split(",") if h not in ("-", "")), t[3], unhexs(t[5])
+                table = {k: v for k, v in M.Mitochondria.SAFE_FUNCTIONS.items() if k not in drop}
+                agent = None
+                if how == "sub":
+                    m2 = type("Mitochondria", (M.Mitochondria,), {"SAFE_FUNCTIONS": dict(table)})(silent=True)
+                elif how == "inst":
+                    m2 = M.Mitochondria(silent=True)
+                    m2.SAFE_FUNCTIONS = dict(table)
+                elif how == "cls":
+                    S = type("Mitochondria", (M.Mitochondria,), {})
+                    m2 = S(silent=True)
+                    S.SAFE_FUNCTIONS = dict(table)
+                elif how == "edit":
+                    S = type("Mitochondria", (M.Mitochondria,), {"SAFE_FUNCTIONS": dict(M.Mitochondria.SAFE_FUNCTIONS)})
+                    m2 = S(silent=True)
+                    for n in drop:
+                        S.SAFE_FUNCTIONS.pop(n, None)
+                else:
+                    from operon_ai.core.agent import BioAgent
+                    from operon_ai.state.metabolism import ATP_Store
+                    agent = BioAgent("a", "Executor", ATP_Store(budget=1000, silent=True))
+                    m2 = agent.mitochondria
+                    m2.silent = True
+                    m2.SAFE_FUNCTIONS = dict(table)
             pw = None if forced == "auto" else getattr(M.MetabolicPathway, PATHS[forced])
-            m2 = M.Mitochondria(silent=True)
             tool_fns = {}
             for name, caps in self.tools:
                 tool_fns[name] = (lambda *a, _n=name, **k: ("tool", _n, a, tuple(k.items())))
@@ -589,13 +702,29 @@ class _State:
             if r.success:
                 ex["value"] = canon(r.atp.value)
             ex["prof"] = prof.report()
+            if agent is not None:
+                try:
+                    from operon_ai.core.types import Signal
+                    pl = getattr(agent.express(Signal(content="calculate " + src)), "payload", None)
+                    ex["agent"] = "returned"
+                    if isinstance(pl, str) and pl.startswith("Calculated: ") \
+                            and not pl[len("Calculated: "):].startswith("Metabolic Failure"):
+                        ex["agent_ok_text"] = [ord(c) for c in pl[len("Calculated: "):][:4000]]
+                        try:
+                            ref = eval(compile(src, "<ref>", "eval"), {"__builtins__": {}}, dict(table))
+                            ex["agent_ref_text"] = [ord(c) for c in str(ref)[:4000]]
+                        except BaseException as e:  # noqa
+                            ex["agent_ref_text"] = None
+                            ex["agent_ref_raise"] = type(e).__name__
+                except BaseException as e:  # noqa
+                    ex["agent"] = "raised:" + type(e).__name__
             # reference: Python's own evaluation with the same allow-listed names
             if r.pathway is not None and r.pathway.value in ("math", "logic"):
-                env = dict(M.Mitochondria.SAFE_FUNCTIONS)
+                env = dict(table)
                 if r.pathway.value == "logic":
                     env.update(true=True, false=False)
                 try:
-                    ref = eval(compile(src.strip() if False else src, "<ref>", "eval"), {"__builtins__": {}}, env)
+                    ref = eval(compile(src, "<ref>", "eval"), {"__builtins__": {}}, env)
                     if r.pathway.value == "logic":
                         ref = bool(ref)
                     ex["ref"] = canon(ref)
@@ -615,7 +744,7 @@ class _State:
                     if (isinstance(body, ast.Call) and isinstance(body.func, ast.Name) and body.func.id in tool_fns
                             and not any(isinstance(a, ast.Starred) for a in body.args)
                             and all(k.arg is not None for k in body.keywords)):
-                        env = dict(M.Mitochondria.SAFE_FUNCTIONS)
+                        env = dict(table)
                         ev = lambda n: eval(compile(ast.fix_missing_locations(ast.Expression(body=n)), "<arg>", "eval"),
                                             {"__builtins__": {}}, env)
                         a = [ev(x) for x in body.args]
@@ -623,7 +752,7 @@ class _State:
                         ex["ref"] = canon(tool_fns[body.func.id](*a, **k))
                     elif isinstance(body, ast.Call) and isinstance(body.func, ast.Name) and body.func.id in tool_fns:
                         # star / double-star arguments: Python's evaluation of the whole text, the tool bound to its name
-                        env = dict(M.Mitochondria.SAFE_FUNCTIONS)
+                        env = dict(table)
                         env[body.func.id] = tool_fns[body.func.id]
                         ex["ref"] = canon(eval(compile(src, "<ref>", "eval"), {"__builtins__": {}}, env))
                 except SyntaxError:
@@ -673,10 +802,15 @@ class _Prof:
         self.py_files = set()
         self.audit = []
         self.active = False
+        self.n_ev = 0              # work: every Python-level and C-level call made while the engine runs
+        self.walk_calls = {}       # per method of the engine that takes an AST expression node: how often entered
+        self.engine_cls = None
 
     def __enter__(self):
         self.c_calls = set()
         self.py_files = set()
+        self.n_ev = 0
+        self.walk_calls = {}
         del self.audit[:]
         if self.on:
             self.active = True
@@ -689,7 +823,25 @@ class _Prof:
             self.active = False
         return False
 
+    def visits(self):
+        """walker invocations: calls of the (most often entered) engine method that takes an AST expression node"""
+        return max(self.walk_calls.values(), default=0)
+
     def _hook(self, frame, event, arg):
+        if event == "c_call":
+            if frame.f_code.co_filename != __file__:       # the tracer objects' own bookkeeping is not the engine's work
+                self.n_ev += 1
+        elif event == "call":
+            b = frame.f_back
+            if b is None or b.f_code.co_filename != __file__:
+                self.n_ev += 1
+        if event == "call":
+            code = frame.f_code
+            if code.co_filename == self.repo_file and code.co_argcount >= 2:
+                loc = frame.f_locals
+                an = code.co_varnames[:code.co_argcount]
+                if isinstance(loc.get(an[0]), self.engine_cls) and any(isinstance(loc.get(n), ast.expr) for n in an[1:]):
+                    self.walk_calls[code] = self.walk_calls.get(code, 0) + 1
         if event == "c_call":
             caller = frame.f_code
             if caller.co_filename == self.repo_file:
@@ -721,7 +873,41 @@ class _Prof:
     def report(self):
         if not self.on:
             return None
-        return {"c": sorted(self.c_calls), "py": sorted(self.py_files), "audit": list(self.audit)}
+        return {"c": sorted(self.c_calls), "py": sorted(self.py_files), "audit": list(self.audit), "work": self.n_ev}
+
+
+class _ChildLogSink:
+    """core._LogSink inside the worker child: the library's loggers at DEBUG with a handler that formats every record
+    (lazily formatted arguments are evaluated; a failing log call is not swallowed)."""
+
+    def __init__(self):
+        import logging
+
+        class _H(logging.Handler):
+            def emit(self, record):
+                record.getMessage()
+
+            def handleError(self, record):
+                raise
+
+        self.logging = logging
+        self.lg = logging.getLogger("operon_ai")
+        self.h = _H()
+        self.prev = self.lg.level
+        self.on = False
+
+    def set(self, on: bool):
+        if on == self.on:
+            return
+        self.on = on
+        if on:
+            self.lg.addHandler(self.h)
+            self.lg.setLevel(self.logging.DEBUG)
+            self.lg.propagate = False
+        else:
+            self.lg.removeHandler(self.h)
+            self.lg.setLevel(self.prev)
+            self.lg.propagate = True
 
 
 def worker_main():
@@ -746,13 +932,16 @@ def worker_main():
     import json as _j  # noqa  (warm: the transform pathway imports it lazily)
     import unicodedata as _u  # noqa  (warm: CPython's parser imports it to normalise non-ASCII identifiers)
     prof = _Prof(False, M.__file__)
+    prof.engine_cls = M.Mitochondria
     sys.addaudithook(prof.on_audit)
+    logsink = _ChildLogSink()
     real_out.write(json.dumps({"ready": True}) + "\n")
     real_out.flush()
     for raw in sys.stdin:
         req = json.loads(raw)
         prof.on = bool(req.get("profile"))
-        st = _State(M)
+        logsink.set(bool(req.get("dbg")))       # DEBUG logging is an environment axis of the case (core.case_debug_logging)
+        st = _State(M, req["lines"], bool(req.get("work")))
         obs, extra = [], []
         for line in req["lines"]:
             try:
@@ -796,12 +985,13 @@ class Worker:
             return None
         return json.loads(line)
 
-    def run(self, lines, profile=False):
-        """-> (obs list, extra list) ; on hang/crash: every line observes 'hang' / 'crash'."""
+    def run(self, lines, profile=False, dbg=False, work=False):
+        """-> (obs list, extra list) ; on hang/crash: every line observes 'hang' / 'crash'.
+        dbg: the case runs with the operon_ai loggers at DEBUG inside the child."""
         if self.p is None or self.p.poll() is not None:
             self._start()
         try:
-            self.p.stdin.write(json.dumps({"lines": lines, "profile": profile}) + "\n")
+            self.p.stdin.write(json.dumps({"lines": lines, "profile": profile, "dbg": bool(dbg), "work": bool(work)}) + "\n")
             self.p.stdin.flush()
         except BrokenPipeError:
             self.kill()
@@ -902,7 +1092,7 @@ def gen_tracer(rng, d, want, clean, logic=False):
     if k < 0.50:
         return f"({G(want)} if {G('truth')} else {G(want)})"
     if k < 0.64:
-        callee = rng.choice(TN + TN + ["zz"])
+        callee = rng.choice(TN + TN + ["zz"] + ([rng.choice(DEFAULT_NAMES)] if not clean else []))
         args = [G("any") for _ in range(rng.choice([0, 1, 1, 2]))]
         kws = [f"{n}={G('any')}" for n in rng.sample(KWN, rng.choice([0, 0, 1, 2]))]
         if kws and r() < 0.06:
@@ -917,7 +1107,7 @@ def gen_tracer(rng, d, want, clean, logic=False):
         tpl = OTHER_TEMPLATES[t]
         return tpl.format(*[G("T") for _ in range(tpl.count("{}"))])
     if k < 0.71:
-        return "zz"
+        return "zz" if clean or r() < 0.6 else rng.choice(DEFAULT_NAMES)
     if want == "T":
         return f"({G('T')} {rng.choice(SUP_BIN)} {G('T')})"
     if k < 0.80:
@@ -933,6 +1123,33 @@ def gen_tracer(rng, d, want, clean, logic=False):
     if r() < 0.5:
         return "[" + ", ".join(els) + "]"
     return "(" + ", ".join(els) + ("," if len(els) == 1 else "") + ")"
+
+
+# nests: one construct inside the other, `depth` levels deep — work must stay linear in the text whatever is nested in
+# what (an operand evaluated twice per level is 2**depth).  Concrete templates map {1, True, 1.0} to {1, True, 1.0}, so
+# no comparison chain or and/or short-circuits and every level is really evaluated.
+NEST_CONCRETE = ["0 < ({}) < 2", "0 <= ({}) <= 1 < 2", "({}) == 1 != 0", "0 < 1 <= ({})", "({}) < 2 < 3", "({}) and 1",
+                 "0 or ({})", "1 and ({})", "({}) if 1 else 0", "0 if 0 else ({})", "1 if ({}) else 0", "abs({})",
+                 "max(0, {})", "min({}, 1)", "int({})", "-(-({}))", "+({})", "not (not ({}))", "({}) * 1", "1 ** ({})",
+                 "({}) // 1", "max([0, {}])", "sum(({}, 0))", "len([{}])", "round({}, ndigits=0)", "max(0, {}, key=abs)"]
+# tracer world: hole and result are always tracers (a bare comparison result on the left of `<` would be reflected)
+NEST_TRACER = ["f0(t0 < ({}) < t1)", "f0(({}) < t0 <= t1)", "f0(t0 < t1 < ({}))", "f1(({}) and t0)", "f1(t0 or ({}))",
+               "(-({}))", "(({}) + t0)", "(t0 * ({}))", "f0(not ({}))", "f0(t2 if ({}) else t3)", "f0({})",
+               "f1(t0, k={})", "f0([t1, {}])", "f0(({}, t2))", "f0(t3 if t0 else ({}))", "f1(t0 < ({}) < t1 < t2)"]
+
+
+def gen_nest(rng, depth, concrete=True, only=None):
+    pool = NEST_CONCRETE if concrete else NEST_TRACER
+    e = rng.choice(["1", "True", "1.0"]) if concrete else rng.choice(TN)
+    for _ in range(depth):
+        tpl = only if only is not None else rng.choice(pool)
+        e = tpl.format(e)
+    return e
+
+
+# names of the engine's DEFAULT table: never listed in the tracer world's tables (the instance's table was replaced
+# after construction), so evaluating one successfully is a lookup outside the allow-list in force
+DEFAULT_NAMES = ["pi", "abs", "max", "e", "inf", "sqrt", "factorial", "len", "int", "pow", "tau", "round"]
 
 
 def gen_tool_call(rng, d, tool_names):
